@@ -306,6 +306,52 @@ def find_loops(text):
     return res
 
 
+def _block_header(toks, b):
+    h = b - 1
+    header = []
+    while h >= 0:
+        tt = toks[h]
+        if tt.kind == 'punct' and tt.text in ')]':
+            h = tt.match - 1
+            continue
+        if tt.kind == 'punct' and tt.text in ';{}':
+            break
+        if tt.kind not in rustlex.SIG:
+            header.insert(0, tt.text)
+        h -= 1
+    return header
+
+
+def _enclosing_block(toks, i):
+    b = i - 1
+    while b >= 0:
+        tt = toks[b]
+        if tt.kind == 'punct' and tt.text in ')]}':
+            b = tt.match - 1
+            continue
+        if tt.kind == 'punct' and tt.text == '{':
+            return b
+        b -= 1
+    return -1
+
+
+def _is_loop_tail_block(toks, b):
+    """True if the block opened at token b is a loop body, or an else-less `if` block that is the LAST statement of a
+    block for which this holds (there `continue` and "skip the rest of this block" coincide)."""
+    header = _block_header(toks, b)
+    if header and header[0] in ('for', 'while', 'loop'):
+        return True
+    if header and header[0] == 'if':
+        close = toks[b].match
+        k = close + 1
+        while k < len(toks) and toks[k].kind in rustlex.SIG:
+            k += 1
+        if k < len(toks) and toks[k].kind == 'punct' and toks[k].text == '}':
+            parent = toks[k].match
+            return _is_loop_tail_block(toks, parent)
+    return False
+
+
 def nest_let_else_continue(text, log, qual):
     """Rule R26: inside a loop body, `let P = E else { continue; }; REST` (REST = everything up to the end of the loop
     body) -> `if let P = E { REST }`.  Only applied when the statement is a direct child of the loop's body block, where
@@ -317,6 +363,47 @@ def nest_let_else_continue(text, log, qual):
         hit = None
         for pos, i in enumerate(sig):
             t = toks[i]
+            if t.kind == 'ident' and t.text == 'if' and (pos == 0 or toks[sig[pos - 1]].text in (';', '{', '}')):
+                # guard form: `if COND { continue; }` (no else) directly in a loop body -> `if !(COND) { REST }`
+                k = i + 1
+                blk = None
+                while k < len(toks):
+                    tt = toks[k]
+                    if tt.kind == 'punct' and tt.text in '([':
+                        k = tt.match + 1
+                        continue
+                    if tt.kind == 'punct' and tt.text == '{':
+                        blk = k
+                        break
+                    if tt.kind == 'punct' and tt.text == ';':
+                        break
+                    k += 1
+                if blk is None:
+                    continue
+                inner = [x for x in range(blk + 1, toks[blk].match) if toks[x].kind not in rustlex.SIG]
+                itxt = [toks[x].text for x in inner]
+                if itxt not in (['continue', ';'], ['continue']):
+                    continue
+                after = toks[blk].match + 1
+                while after < len(toks) and toks[after].kind in rustlex.SIG:
+                    after += 1
+                if after < len(toks) and toks[after].kind == 'ident' and toks[after].text == 'else':
+                    continue
+                if 'let' in [toks[x].text for x in range(i + 1, blk) if toks[x].kind == 'ident']:
+                    continue   # `if let .. { continue; }` is not a boolean guard
+                # enclosing block must be a loop body (or a tail `if` block of one)
+                b = _enclosing_block(toks, i)
+                if b < 0:
+                    continue
+                if not _is_loop_tail_block(toks, b):
+                    raise LostAnchor(f'{qual}: rule R26: guard-continue is not in tail position of a loop body (not handled)')
+                cond = text[toks[i + 1].start:toks[blk].start].strip()
+                close = toks[b].match
+                rest = text[toks[toks[blk].match].end:toks[close].start]
+                text = text[:toks[i].start] + 'if !(' + cond + ') {' + rest + '}\n' + text[toks[close].start:]
+                count += 1
+                hit = 'guard'
+                break
             if not (t.kind == 'ident' and t.text == 'else'):
                 continue
             nxt = [toks[j] for j in sig[pos + 1:pos + 6]]
@@ -342,38 +429,17 @@ def nest_let_else_continue(text, log, qual):
                 k -= 1
             if let_i is None or k < 0 or toks[k].text not in ';{':
                 raise LostAnchor(f'{qual}: rule R26: cannot find the `let` of a let-else-continue')
-            # enclosing block
-            b = let_i - 1
-            while b >= 0:
-                tt = toks[b]
-                if tt.kind == 'punct' and tt.text in ')]}':
-                    b = tt.match - 1
-                    continue
-                if tt.kind == 'punct' and tt.text == '{':
-                    break
-                b -= 1
+            b = _enclosing_block(toks, let_i)
             if b < 0:
                 raise LostAnchor(f'{qual}: rule R26: no enclosing block')
-            # the block must be a loop body: header ident before `{` (back to the previous `;`, `{` or `}`) starts with for/while/loop
-            h = b - 1
-            header = []
-            while h >= 0:
-                tt = toks[h]
-                if tt.kind == 'punct' and tt.text in ')]':
-                    h = tt.match - 1
-                    continue
-                if tt.kind == 'punct' and tt.text in ';{}':
-                    break
-                if tt.kind not in rustlex.SIG:
-                    header.insert(0, tt.text)
-                h -= 1
-            # a loop annotation (invariant ...) may sit between header and `{`; the first word decides
-            if not header or header[0] not in ('for', 'while', 'loop'):
-                raise LostAnchor(f'{qual}: rule R26: let-else-continue is not a direct child of a loop body (not handled)')
+            if not _is_loop_tail_block(toks, b):
+                raise LostAnchor(f'{qual}: rule R26: let-else-continue is not in tail position of a loop body (not handled)')
             hit = (let_i, i, end_stmt, toks[b].match)
             break
         if hit is None:
             break
+        if hit == 'guard':
+            continue
         let_i, else_i, end_stmt, close = hit
         head = text[toks[let_i].start:toks[else_i].start].rstrip()
         rest = text[toks[end_stmt].end:toks[close].start]
